@@ -56,8 +56,8 @@ def O(op, u=None, **kw):
 def corpus():
     cs = []
 
-    def add(cid, ops, auth=False, disable=False):
-        cs.append({"id": cid, "auth": auth, "disable": disable, "ops": ops})
+    def add(cid, ops, auth=False, disable=False, tenant=False):
+        cs.append({"id": cid, "auth": auth, "disable": disable, "tenant": tenant, "ops": ops})
     three = [conn("u1", "e1"), conn("u2", "e1", "raw"), conn("u3", "ep-2")]
     # every way to end, on a shared endpoint
     add("c-client-shutdown", three + [O("client_shutdown", "u1"), O("client_shutdown", "u2"), O("client_shutdown", "u3")])
@@ -99,6 +99,11 @@ def corpus():
                                               O("client_shutdown", "u1")], auth=False)
     add("c-expiry-then-late-client-close", [conn("u1", "e1", tok="exp", ahead=400), conn("u2", "e1", tok="exp", ahead=1500),
                                             O("await_expiry", "u1"), O("client_shutdown", "u1"), O("server_shutdown")], auth=True)
+    # the same through a tenant's verifier (x-piko-tenant-id): the token's expiry must survive MultiTenantVerifier
+    add("c-expiry-tenant", [conn("u1", "e1", tok="exp", ahead=400), conn("u2", "e1", "raw", tok="exp", ahead=900), conn("u3", "e1", tok="noexp"),
+                            O("await_expiry", "u1"), O("await_expiry", "u2"), O("client_shutdown", "u3")], auth=True, tenant=True)
+    add("c-expiry-tenant-disabled", [conn("u1", "e1", tok="exp", ahead=400), O("await_expiry", "u1"), O("client_shutdown", "u1")],
+        auth=True, disable=True, tenant=True)
     add("c-shutdown-far-expiry", [conn("u1", "e1", tok="exp", ahead=60000), conn("u2", "e1", "raw", tok="exp", ahead=60000),
                                   conn("u3", "ep-2", tok="noexp"), O("server_shutdown")], auth=True)
     add("c-shed-far-expiry", [conn("u1", "e1", tok="exp", ahead=60000), conn("u2", "e1", tok="exp", ahead=60000), O("shed", n=2),
@@ -171,7 +176,7 @@ def gen_case(rng, cid):
                     if rng.random() < 0.5:
                         ops.append(O("errgone", u))
                 ops.append(O("client_shutdown", u))
-    return {"id": cid, "auth": auth, "disable": disable, "ops": ops}
+    return {"id": cid, "auth": auth, "disable": disable, "tenant": auth and rng.random() < 0.3, "ops": ops}
 
 
 def mid_op(rng, live, conns):
@@ -569,7 +574,7 @@ def run(ctx):
                                        % (",".join(d["names"]), d["step"], c["id"]), "found_input": False,
                                "replay_obj": {"broken": "corr:C16:lifecycle:%s" % "+".join(d["names"]), "disagreement": d,
                                               "case": c, "observed": o}})
-    nontriv = len({json.dumps(c["ops"], sort_keys=True) + str(c["auth"]) + str(c["disable"]) for c in cases if len(ways_ended(c)) >= 2})
+    nontriv = len({json.dumps(c["ops"], sort_keys=True) + str(c["auth"]) + str(c["disable"]) + str(c.get("tenant")) for c in cases if len(ways_ended(c)) >= 2})
     cov = {"evaluations": len(cases), "distinct_nontrivial": nontriv,
            "rule": "scenarios on a real upstream.Server: corpus (each way to end a connection, D1 witnesses, handshake refusals, expiry on/off) then random scenarios (2-6 connections on 1-3 endpoints, real and raw clients, go-away/ErrGone/shutdown/drop/shed/server shutdown/expiry, everything ended at the end); non-trivial = uses at least two different ways to end/deregister; distinct by (config, op list)",
            "samples": [cases[2]["ops"], cases[len(corpus())]["ops"]],
